@@ -1,0 +1,19 @@
+//go:build verif
+
+package vcode
+
+import "fmt"
+
+// verifSendThenVerify is never called. It is a proof harness for govc (see /verif/DESIGN.md): its contract in
+// zz_contracts_verif.go states that a code just sent verifies with the returned hash (first attempt, no time elapsed).
+func verifSendThenVerify(s *sender, areaCode, phone string) error {
+	var hash, err = s.SendSMSCode(areaCode, phone)
+	if err != nil {
+		return nil
+	}
+	var c = s.fetchCache(fmt.Sprintf("%s-%s", areaCode, phone), true)
+	if c == nil {
+		return ErrVerifyCodeNotExist
+	}
+	return s.VerifySMSCode(areaCode, phone, c.code, hash)
+}
